@@ -78,7 +78,7 @@ var HostileLiterals = []Tok{
 
 // Mutation describes one token-level edit.
 type Mutation struct {
-	Kind string `json:"kind"` // delete insert replace transpose
+	Kind string `json:"kind"` // delete insert replace transpose truncate
 	At   int    `json:"at"`
 	Tok  Tok    `json:"tok,omitempty"`
 }
@@ -99,6 +99,14 @@ func (m Mutation) Apply(toks []Tok) []Tok {
 	case "transpose":
 		out[m.At], out[m.At+1] = out[m.At+1], out[m.At]
 		return out
+	case "truncate":
+		// the input ends after m.At tokens (a file cut short), possibly
+		// followed by the first word of the next statement
+		out = out[:m.At]
+		if m.Tok.S != "" {
+			out = append(out, m.Tok)
+		}
+		return out
 	}
 	return out
 }
@@ -110,6 +118,27 @@ func GenMutation(t *rapid.T, toks []Tok, hostilePct int) Mutation {
 			return Pick(t, "hostiletok", HostileLiterals)
 		}
 		return Pick(t, "vocab", Vocabulary)
+	}
+	if len(toks) >= 2 && Chance(t, 7, "truncate") {
+		// cut short: anywhere, or (half of the time) right after a keyword
+		// that starts a statement
+		at := 1 + Uniform(t, len(toks)-1, "truncat")
+		if Bool(t, "afterkeyword") {
+			var kw []int
+			for i, tk := range toks[:len(toks)-1] {
+				if tk.K == KWord && (tk.S == "var" || tk.S == "def" || tk.S == "eval" || tk.S == "print" || tk.S == "bind") {
+					kw = append(kw, i+1)
+				}
+			}
+			if len(kw) > 0 {
+				at = Pick(t, "truncatkw", kw)
+			}
+		}
+		m := Mutation{Kind: "truncate", At: at}
+		if Chance(t, 40, "thenkeyword") {
+			m.Tok = W(Pick(t, "nextkw", []string{"var", "def", "eval", "print", "bind"}))
+		}
+		return m
 	}
 	kinds := []string{"delete", "insert", "replace", "transpose"}
 	k := Pick(t, "mutkind", kinds)
